@@ -174,7 +174,8 @@ def render_node(n):
             return "{{{" + n[1] + "}}}"
         return "{{{" + n[1] + "|" + render(n[2]) + "}}}"
     if k == "C":
-        return "{{" + "|".join([n[1]] + [render_arg(a) for a in n[2]]) + "}}"
+        name = n[1] if isinstance(n[1], str) else render(n[1])
+        return "{{" + "|".join([name] + [render_arg(a) for a in n[2]]) + "}}"
     if k == "IF":
         parts = [render(n[1]), render(n[2])]
         if n[3] is not None:
